@@ -13,7 +13,12 @@ THEOREMS = {
         "Dawgs.C19.Props.resume_refuses_on_identity_change",
         "Dawgs.C19.Props.resume_ignores_exempt_fields",
         "Dawgs.C19.Props.resume_refuses_on_source_count_change",
+        "Dawgs.C19.Props.resume_refuses_on_completed_source_change",
+        "Dawgs.C19.Props.resume_refuses_on_current_source_change",
         "Dawgs.C19.Props.resume_refuses_on_unexpected_file",
+        "Dawgs.C19.Props.resume_ok_iff_no_foreign_file",
+        "Dawgs.C19.Props.scrub_plan_cache_unobservable",
+        "Dawgs.C19.Props.scrub_plan_from_raw_key_observable",
         "Dawgs.C19.Props.c19_full",
     ],
     # T-tie: side conditions over the fact table regenerated from retriever/*.go (tools/extract/c19)
@@ -26,6 +31,9 @@ THEOREMS = {
         "Dawgs.C19.Props.config_digest_covers",
         "Dawgs.C19.Props.salt_digest_order",
         "Dawgs.C19.Props.whole_identity_compared",
+        "Dawgs.C19.Props.source_guards_as_modelled",
+        "Dawgs.C19.Props.walk_skips_only_directories",
+        "Dawgs.C19.Props.scrub_plan_from_cache_key_only",
     ],
 }
 
@@ -146,7 +154,7 @@ SPEC = {
     "lean_modules": ["Dawgs.Props.C19", "Dawgs.Props.C19Identity"],
     "regen": regen,
     "theorems_by_module": THEOREMS,
-    "gate_modules": ["Dawgs.Model.C19", "Dawgs.Spec.C19", "Dawgs.Proofs.C19", "Dawgs.Props.C19", "Dawgs.Props.C19Identity"],
+    "gate_modules": ["Dawgs.Model.C19", "Dawgs.Model.C19Scrub", "Dawgs.Spec.C19", "Dawgs.Proofs.C19", "Dawgs.Props.C19", "Dawgs.Props.C19Identity"],
     "suites": [
         {"name": "c19", "model_suite": "c19", "monitor_suite": None, "keep_prefix": 2, "thorough_seeds": 2, "shrink_budget": 200},
         {"name": "obs19", "model_suite": None, "monitor_suite": "c19mon", "keep_prefix": 2, "thorough_seeds": 2, "shrink_budget": 200},
@@ -161,16 +169,22 @@ SPEC = {
             "scrubbing off and on: interrupt, change exactly ONE field of the call (shard, batch, compression, zstd level, driver name, targets / "
             "their order, scrub mode, scrub salt, each leaf of the scrub configuration) -> must refuse, restore -> must complete to the "
             "uninterrupted result; exempt fields (progress interval, progress callback; the output directory differs on every op) and, without "
-            "scrubbing, salt and scrub configuration -> must complete. Suite c19 compares the "
+            "scrubbing, salt and scrub configuration -> must complete; (6) single-dimension source changes of completed / in-progress / not-started "
+            "graphs; (7) foreign files and directories from a name alphabet (known temporaries, other *.tmp, fragment-like names beyond the cursor, "
+            "hidden files, case/suffix variants of the dump's own names, at every directory level). Cases (1)-(4) run with Scrub=full for every "
+            "other database, with property keys in several spellings (case, -, _; free-text next to structured keys) spread over the nodes, so "
+            "'resumed dump = uninterrupted dump' (byte-identical fragments + manifest modulo generated_at) is checked with scrubbing on at every "
+            "crash point. Suite c19 compares the "
             "directory after every step with the Lean model's applyOps (take k ops); suite obs19 feeds names, sizes and sha256 of every file to the "
             "Lean monitor. A case is non-trivial when it has an interruption inside the fragment/checkpoint protocol, a completed resume and a "
             "refused resume; distinct = distinct op-line sequences (sha1)",
     "expected_branches": ["crashed.fragment.renamed", "crashed.checkpoint.tmp.written", "crashed.checkpoint.renamed", "crashed.manifest.renamed",
                           "crashed.fragment.record.written", "resume.ok", "resume.refused.unexpected-file", "resume.refused.identity-changed",
-                          "resume.refused.source-changed", "resume.refused.checksum", "resume.refused.fragment-missing",
+                          "resume.refused.source-changed", "gen.source_change_rounds", "resume.refused.checksum", "resume.refused.fragment-missing",
                           "resume.refused.manifest-present", "resume.refused.no-checkpoint", "resume.crashed.resume.temp.removed",
                           "dump.err.db-read", "resume.err.db-read", "torn_temps", "set.salt", "set.rules", "set.scrub", "set.driver",
-                          "set.targets", "set.zstdlevel", "set.progress", "set.progresscb"],
+                          "set.targets", "set.zstdlevel", "set.progress", "set.progresscb",
+                          "gen.scrubbed_cases", "gen.foreign_files", "gen.foreign_dirs"],
     "trusted_base": ["file system: atomic rename, a crash loses no completed step (process crash, not power loss: the code never fsyncs)",
                      "SHA-256 idealised as collision free (the model compares recorded content)",
                      "verif-tagged crash hook retriever.VerifCrashHook / verifCrashPoint (hooks/C19.patch, add-only; applied through go build -overlay "
